@@ -39,7 +39,8 @@ def gen(rng, tier):
             cases.append(Case("cli.new %s %s" % (hx(str(L)), hx(ent)), tags=("cli", "pattern"), runner="cli", meta={"log": True}))
         # short read: fewer bytes available than requested -> failure
         cases.append(Case("mn.random %d %s" % (L, hx(bytes(nb - 1))), tags=("lib", "short-read")))
-    for bad in ["", "x", "-1", "12.0", "+12", "18446744073709551616", " 12"]:
+    from vlib.core import perturb
+    for bad in ["", "x", "-1", "12.0", "+12", "18446744073709551616", " 12"] + perturb("12") + perturb("24"):
         cases.append(Case("cli.new %s %s" % (hx(bad), hx(bytes(40))), tags=("cli", "bad-length"), runner="cli", meta={}, nontrivial=False))
     # failure at a later request of a vanity search (single-threaded, deterministic)
     e = [bytes(rng.getrandbits(8) for _ in range(16)) for _ in range(3)]
